@@ -954,6 +954,10 @@ restore_ownership (void *data)
   
   _dbus_list_insert_before_link (&d->service->owners, link, d->owner_link);
 
+  /* the queue holds a reference on each of its owners; the one dropped by
+   * bus_service_unlink_owner() is taken back with the place in the queue */
+  bus_owner_ref (d->owner);
+
   /* Note that removing then restoring this changes the order in which
    * ServiceDeleted messages are sent on destruction of the
    * connection.  This should be OK as the only guarantee there is
